@@ -97,6 +97,7 @@ def assign_tokens_until_matching_closing_paren(token, iToken, lObjects):
         if token_is_close_parenthesis(iCurrent, lObjects) and iCounter == 0:
             return iCurrent
         lObjects[iCurrent] = token(lObjects[iCurrent].get_value())
+    print_missing_error_message([")"], iToken, lObjects)
 
 
 def assign_parenthesis_as_todo(iToken, lObjects):
@@ -1011,3 +1012,4 @@ def skip_tokens_until_matching_closing_paren(iToken, lObjects):
         if token_is_close_parenthesis(iCurrent, lObjects) and iCounter == 0:
             return iCurrent
         iCurrent += 1
+    print_missing_error_message([")"], iToken, lObjects)
